@@ -162,10 +162,55 @@ def check_source(R, rng, src, opt, cwd, tier, scratch_repo=None):
             compare(R, ref, res, "parser-tables=%s" % state, src, opt)
 
 
+IMPORT_LIBS = [
+    ("function scale (int x) -> int {\n  return x * 3;\n}\n", "function scale (float x) -> float {\n  return x * 0.5;\n}\n"),
+    ("function scale (float x) -> float {\n  return x + 1.5;\n}\n", "function scale (int x) -> int {\n  return x + 2;\n}\nfunction other (int y) -> int {\n  return y;\n}\n"),
+]
+
+
+def import_history_case(R, tmp, variant):
+    """a source that imports a library, compiled twice in ONE process with the library compiled and stored again (other
+    signature) in between: the second compilation must give what a fresh process gives for the files as they are then"""
+    import pickle
+    d = os.path.join(tmp, "imp%d" % variant)
+    os.makedirs(d, exist_ok=True)
+    old = os.getcwd()
+    os.chdir(d)
+    try:
+        libname = ("implib", "pkg/implib")[variant % 2]
+        if os.path.dirname(libname):
+            os.makedirs(os.path.dirname(libname), exist_ok=True)
+        main = 'import "%s";\nexport function f (int a) -> float {\n  return scale(a) + 1;\n}\n' % libname
+        v1, v2 = IMPORT_LIBS[(variant // 2) % len(IMPORT_LIBS)]
+        for opt in (False, True):
+            digests = []
+            for text in (v1, v2):
+                out = nslapi.compile_source(text, optimize=opt)
+                if not out.usable:
+                    R.inconclusive.append("import-history: the library does not compile")
+                    return
+                with open(libname + ".nslir", "wb") as f:
+                    pickle.dump(out.ir, f)
+                digests.append(pdigest.digest_of(main, opt))
+            ref = runner.helper("digest", {"cwd": d, "history": [], "target": main, "optimize": opt, "audit": False})
+            R.count("digest_processes")
+            if ref.get("error"):
+                R.inconclusive.append("digest helper failed: %s" % ref["error"])
+                return
+            R.count("import_history_cases")
+            if digests[0] == digests[1]:
+                R.count("import_history_cases_where_the_library_makes_no_difference")
+            compare(R, ref, digests[1], "library-stored-again-same-process", main, opt)
+    finally:
+        os.chdir(old)
+
+
 def run_shard(tier, seed, shard, n, R):
     tmp = tempfile.mkdtemp(prefix="nslverif_c18_")
     scratch = None
     try:
+        if shard < 4:
+            import_history_case(R, tmp, shard)
         if tier == "thorough" or shard == 0:
             scratch = os.path.join(tmp, "pkg")
             os.makedirs(scratch)
